@@ -103,6 +103,8 @@ impl SCfg {
 pub enum SFault {
     /// hand-written prover: violating trace (row, col, new value), "quotient" chosen after zeta, no quotient cap
     ForgedNoQuotientCap(usize, usize, u64),
+    /// strategy: quotient cap of identically-zero polynomials, opening set without quotient openings
+    ForgedNoQuotientOpenings(usize, usize, u64),
     /// (row, col, new value)
     TraceCell(usize, usize, u64),
     /// prover proves with this public input changed: (index, new value)
@@ -137,6 +139,7 @@ fn viol(rep: &mut Report, case: &Case, f: Option<&SFault>, oracle: &str, detail:
         Some(SFault::TraceCell(..)) => "trace_cell".to_string(),
         Some(SFault::ProverPi(..)) => "prover_pi".to_string(),
         Some(SFault::ForgedNoQuotientCap(..)) => "forged_missing_quotient_cap".to_string(),
+        Some(SFault::ForgedNoQuotientOpenings(..)) => "forged_missing_quotient_openings".to_string(),
         Some(SFault::Message(m)) => format!("message.{}.{}", m.kind(), component(m.path())),
         None => "honest".to_string(),
     };
@@ -237,6 +240,7 @@ fn exec_s<C: GenericConfig<D, F = F>, const COLS: usize, const PIS: usize>(case:
         if def.lookups.is_empty() && !def.constraints.is_empty() && n >= 4 {
             let (row, col) = (r.usize(n), r.usize(COLS));
             plan_f.push(SFault::ForgedNoQuotientCap(row, col, (inst.rows[row][col] + 1) % P));
+            plan_f.push(SFault::ForgedNoQuotientOpenings(row, col, (inst.rows[row][col] + 1) % P));
         }
         // a trace whose columns are all constant gives a challenge-independent proof (all openings fit any
         // zeta and any query set): the R3 argument does not apply, a cap entry no new query lands on is legitimately unbound
@@ -278,6 +282,26 @@ fn exec_s<C: GenericConfig<D, F = F>, const COLS: usize, const PIS: usize>(case:
                     rep.probe("c09.unconstrained_cell_changed_and_accepted");
                 }
             }
+            SFault::ForgedNoQuotientOpenings(row, col, nv) => {
+                let mut rows = inst.rows.clone();
+                rows[*row][*col] = *nv;
+                let violated = def.check(&rows, &inst.pis);
+                if violated.is_none() {
+                    rep.case(sig, false);
+                    continue;
+                }
+                rep.fault("strategy.forged_missing_quotient_openings");
+                rep.case(sig, true);
+                case.sched.arm();
+                match forge_without_quotient::<C, COLS, PIS>(def, &cfg, &rows, &inst.pis, true) {
+                    Ok(p) => {
+                        if stark_verify::<C, COLS, PIS>(def, &cfg, &p).is_ok() {
+                            viol(rep, case, Some(f), "accepted_forged_proof_without_quotient_openings", format!("violating trace (row {row} col {col}, constraint {:?}); the opening set carries no quotient openings", violated));
+                        }
+                    }
+                    Err(_) => rep.probe("c09.forger_not_applicable"),
+                }
+            }
             SFault::ForgedNoQuotientCap(row, col, nv) => {
                 let mut rows = inst.rows.clone();
                 rows[*row][*col] = *nv;
@@ -289,7 +313,7 @@ fn exec_s<C: GenericConfig<D, F = F>, const COLS: usize, const PIS: usize>(case:
                 rep.fault("strategy.forged_missing_quotient_cap");
                 rep.case(sig, true);
                 case.sched.arm();
-                match forge_missing_quotient_cap::<C, COLS, PIS>(def, &cfg, &rows, &inst.pis) {
+                match forge_without_quotient::<C, COLS, PIS>(def, &cfg, &rows, &inst.pis, false) {
                     Ok(p) => {
                         if stark_verify::<C, COLS, PIS>(def, &cfg, &p).is_ok() {
                             viol(rep, case, Some(f), "accepted_forged_proof_without_quotient_cap", format!("violating trace (row {row} col {col}, constraint {:?}); the proof carries no quotient cap", violated));
@@ -409,11 +433,16 @@ pub fn shrink(case: &Value) -> Vec<Value> {
 /// polynomials that make the identity hold at zeta; it sends no quotient cap, so those polynomials
 /// are never bound to the transcript. A sound verifier must reject such a proof (definitions with
 /// a quotient must carry a quotient cap).
-pub fn forge_missing_quotient_cap<C: GenericConfig<D, F = F>, const COLS: usize, const PIS: usize>(
+///
+/// With `zero_quotient_cap` the forger instead commits to identically-zero quotient polynomials (the
+/// cap is sent and observed) and sends an opening set *without* quotient openings, so that a verifier
+/// that does not insist on them has nothing to compare the vanishing polynomial with.
+pub fn forge_without_quotient<C: GenericConfig<D, F = F>, const COLS: usize, const PIS: usize>(
     def: &Def,
     cfg: &StarkConfig,
     rows: &[Vec<u64>],
     pis: &[u64],
+    zero_quotient_cap: bool,
 ) -> Result<StarkProofWithPublicInputs<F, C, D>, String> {
     use core::cmp::{max, min};
     use plonky2::field::extension::FieldExtension;
@@ -471,6 +500,17 @@ pub fn forge_missing_quotient_cap<C: GenericConfig<D, F = F>, const COLS: usize,
         let (bound, _) = eval_at(zeta_prime, &alphas_prime, &dummy[..COLS], &dummy[COLS..2 * COLS]);
         challenger.observe_extension_elements::<D>(&bound);
         let alphas = challenger.get_n_challenges(cfg.num_challenges);
+        if zero_quotient_cap {
+            let n_polys = stark.quotient_degree_factor() * cfg.num_challenges;
+            let zero = PolynomialBatch::<F, C, D>::from_coeffs(vec![PolynomialCoeffs::new(vec![F::ZERO; degree]); n_polys], rate_bits, false, cap_height, &mut timing, None);
+            challenger.observe_cap(&zero.merkle_tree.cap);
+            let zeta = challenger.get_extension_challenge::<D>();
+            let openings = StarkOpeningSet::<F, D>::new::<C>(zeta, g, &trace_commitment, None, None, 0, false, &[]);
+            challenger.observe_extension_elements::<D>(&openings.local_values);
+            challenger.observe_extension_elements::<D>(&openings.next_values);
+            let opening_proof = PolynomialBatch::<F, C, D>::prove_openings(&stark.fri_instance(zeta, g, 0, vec![], cfg), &[&trace_commitment, &zero], &mut challenger, &fri_params, None, None, &mut timing);
+            return StarkProofWithPublicInputs { proof: StarkProof { trace_cap, auxiliary_polys_cap: None, quotient_polys_cap: Some(zero.merkle_tree.cap.clone()), openings, opening_proof }, public_inputs };
+        }
         // NO quotient cap is observed: zeta is known before the "quotient" is chosen
         let zeta = challenger.get_extension_challenge::<D>();
         let tr_open = StarkOpeningSet::<F, D>::new::<C>(zeta, g, &trace_commitment, None, None, 0, false, &[]);
